@@ -379,14 +379,15 @@ Qed.
 Lemma file_truncate_spec gs0 s0 g k ms :
   Forall valid_rec g -> gap_free g = true ->
   exists ms', 
-    file_truncate (cur_of (s0 + N.of_nat (length gs0)) g) k (dir_of s0 (gs0 ++ [g]) [], ms)
+    file_truncate repaired (cur_of (s0 + N.of_nat (length gs0)) g) k (dir_of s0 (gs0 ++ [g]) [], ms)
     = (0%Z, cur_of (s0 + N.of_nat (length gs0)) (keep_le k g), (dir_of s0 (gs0 ++ [keep_le k g]) [], ms ++ ms')) /\
     (ms' = [] \/ ms' = [MTruncate (s0 + N.of_nat (length gs0)) (blen (file_of (keep_le k g)))]) /\
-    (ms' = [] -> keep_le k g = g).
+    (ms' = [] -> keep_le k g = g) /\
+    (ms' <> [] -> blen (file_of (keep_le k g)) < blen (file_of g)).
 Proof.
-  intros Hv Hg. unfold file_truncate. rewrite cf_last_cur_of.
+  intros Hv Hg. unfold file_truncate. cbn [fx_tsync repaired]. rewrite cf_last_cur_of.
   destruct (glast g <=? k) eqn:El.
-  - apply N.leb_le in El. rewrite (keep_le_all k g Hg El). exists []. rewrite app_nil_r. repeat split; auto.
+  - apply N.leb_le in El. rewrite (keep_le_all k g Hg El). exists []. rewrite app_nil_r. repeat split; auto. intros H; congruence.
   - apply N.leb_gt in El. cbn [fst]. rewrite cf_seq_cur_of, fs_get_dir_last, app_nil_r, cf_first_cur_of.
     destruct g as [|a g]; [cbn in El; lia|]. cbn [glast gfirst] in *.
     destruct (k + 1 <=? rid a) eqn:Ef.
@@ -395,7 +396,9 @@ Proof.
       assert (Hk : k < rid a) by lia.
       rewrite (keep_le_none k (a :: g) Hg Hk ltac:(discriminate)).
       assert (Elt : (k <? rid a) = true) by (apply N.ltb_lt; exact Hk). rewrite Elt.
-      exists [MTruncate (s0 + N.of_nat (length gs0)) 0]. split; [|split; [right; reflexivity|discriminate]].
+      exists [MTruncate (s0 + N.of_nat (length gs0)) 0].
+      split; [|split; [right; reflexivity|split; [discriminate|]]].
+      2:{ intros _. rewrite file_of_blen_cons. assert (E0 : blen (file_of []) = 0) by reflexivity. lia. }
       unfold emit. cbn [fst snd apply_mut].
       pose proof (fs_truncate_last gs0 s0 [] (a :: g)) as Ht. unfold blen in Ht. cbn [app file_of flat_map length] in Ht.
       change (N.of_nat 0) with 0 in Ht. rewrite Ht. reflexivity.
@@ -420,7 +423,10 @@ Proof.
       rewrite N.add_0_l.
       assert (Elt : (rid rk <? rid a) = false) by (apply N.ltb_ge; lia). rewrite Elt.
       exists [MTruncate (s0 + N.of_nat (length gs0)) (blen (file_of (A ++ [rk])))].
-      split; [|split; [right; reflexivity|discriminate]].
+      split; [|split; [right; reflexivity|split; [discriminate|]]].
+      2:{ intros _. destruct B as [|b0 B']; [congruence|].
+          change (A ++ rk :: b0 :: B') with (A ++ [rk] ++ b0 :: B'). rewrite app_assoc.
+          rewrite (file_of_app (A ++ [rk]) (b0 :: B')), blen_app, (file_of_blen_cons b0 B'). lia. }
       unfold emit. cbn [fst snd apply_mut].
       change (A ++ rk :: B) with (A ++ [rk] ++ B). rewrite app_assoc.
       rewrite fs_truncate_last. f_equal. f_equal.
@@ -497,12 +503,13 @@ Lemma truncate_step maxsz l d acked s0 gs k :
   let gn := nth n gs [] in
   let D := skipn (S n) gs in
   exists l' T,
-    log_truncate l d k
+    log_truncate repaired l d k
     = (0%Z, l', dir_of s0 (G ++ [keep_le k gn]) [],
        flat_map unlink_pair (rev (map fi_seq (infos_of (s0 + N.of_nat (S n)) D))) ++ T) /\
     refresh l' = log_of s0 (G ++ [keep_le k gn]) maxsz /\
     (T = [] \/ T = [MTruncate (s0 + N.of_nat n) (blen (file_of (keep_le k gn)))]) /\
-    (T = [] -> keep_le k gn = gn).
+    (T = [] -> keep_le k gn = gn) /\
+    (T <> [] -> blen (file_of (keep_le k gn)) < blen (file_of gn)).
 Proof.
   intros Hinv n G gn D.
   assert (Hne : gs <> []) by (destruct (li_clean _ _ _ _ _ _ Hinv) as [->|[H _]]; [discriminate|assumption]).
@@ -531,7 +538,7 @@ Proof.
     apply apply_unlinks_back. destruct G; discriminate. }
   rewrite Hdir.
   destruct (file_truncate_spec G s0 gn k (flat_map unlink_pair (rev (map fi_seq (infos_of (s0 + N.of_nat (S n)) D)))) Hvgn Hggn)
-    as (T & Hft & HT & HT0).
+    as (T & Hft & HT & HT0 & HT1).
   assert (Hfin : forall cur', cur' = cur_of (s0 + N.of_nat (length G)) (keep_le k gn) ->
              refresh (mkLog (infos_of s0 (G ++ [gn])) cur' maxsz) = log_of s0 (G ++ [keep_le k gn]) maxsz).
   { intros cur' ->. unfold refresh, log_of. cbn [lg_files lg_cur lg_max].
@@ -544,13 +551,13 @@ Proof.
     { rewrite Egs, HD, app_nil_r, last_last, app_length. cbn [length]. f_equal. lia. }
     rewrite Hcur. cbn [map rev flat_map] in Hft |- *. rewrite Hft.
     eexists. exists T. split; [reflexivity|]. split; [apply Hfin; reflexivity|].
-    split; [|assumption]. rewrite <- HlenG. exact HT.
+    split; [rewrite <- HlenG; exact HT|]. split; assumption.
   - rewrite <- Einf in *.
     assert (Hls : last_seq (infos_of s0 (G ++ [gn])) = s0 + N.of_nat (length G)) by apply last_seq_infos.
     rewrite Hls, open_rw_last_clean by assumption. rewrite Hft.
     destruct (infos_of (s0 + N.of_nat (S n)) D) eqn:E2; [discriminate Einf|]. rewrite <- E2.
     eexists. exists T. split; [reflexivity|]. split; [apply Hfin; reflexivity|].
-    split; [|assumption]. rewrite <- HlenG. exact HT.
+    split; [rewrite <- HlenG; exact HT|]. split; assumption.
 Qed.
 
 (* ---------- Truncate: which records stay ---------- *)
@@ -681,12 +688,12 @@ Proof. rewrite firstn_app, firstn_all2 by lia. replace (length K + q - length K)
 
 Lemma truncate_crash maxsz l d acked s0 gs k j cut :
   linv maxsz l d acked s0 gs ->
-  (j <= length (snd (log_truncate l d k)))%nat ->
-  crash_ok repaired maxsz (crash_fs d (snd (log_truncate l d k)) j cut)
+  (j <= length (snd (log_truncate repaired l d k)))%nat ->
+  crash_ok repaired maxsz (crash_fs d (snd (log_truncate repaired l d k)) j cut)
     (filter (fun r => rid r <=? k) acked) acked.
 Proof.
   intros Hinv Hj.
-  destruct (truncate_step maxsz l d acked s0 gs k Hinv) as (l' & T & Estep & _ & HT & HT0).
+  destruct (truncate_step maxsz l d acked s0 gs k Hinv) as (l' & T & Estep & _ & HT & HT0 & _).
   rewrite Estep in *. cbn [snd] in *. clear Estep.
   set (n := gfc_idx k gs) in *. set (G := firstn n gs) in *. set (gn := nth n gs []) in *.
   set (D := skipn (S n) gs) in *.
@@ -785,7 +792,7 @@ Proof.
     + destruct lv as [ol d acked]. cbn [lv_log lv_fs lv_acked] in *. subst ol.
       cbn [op_run lv_log lv_fs lv_acked must_of may_of].
       pose proof (truncate_crash maxsz l d acked s0 gs k j cut Hinv) as H.
-      destruct (log_truncate l d k) as [[[rc l'] d'] ms]. cbn [snd] in H. intros Hj _. apply H. exact Hj.
+      destruct (log_truncate repaired l d k) as [[[rc l'] d'] ms]. cbn [snd] in H. intros Hj _. apply H. exact Hj.
   - (* Trim *)
     destruct Hg as [->|(l & s0 & gs & Hl & Hinv)].
     + cbn [op_run lv_log lv_fs lv_acked must_of may_of filter]. intros _ _. rewrite crash_fs_nil.
@@ -871,7 +878,7 @@ Proof.
         unfold step_live, op_run in E. cbn [lv_log lv_fs lv_acked] in E.
         destruct op as [recs|k|k|]; cbn [lv_log lv_fs lv_acked] in E.
         + destruct (log_append repaired l0 d (map to_wire recs)) as [[[rc l'] d'] ms]. apply (f_equal lv_log) in E. cbn [lv_log] in E. discriminate E.
-        + destruct (log_truncate l0 d k) as [[[rc l'] d'] ms]. apply (f_equal lv_log) in E. cbn [lv_log] in E. discriminate E.
+        + destruct (log_truncate repaired l0 d k) as [[[rc l'] d'] ms]. apply (f_equal lv_log) in E. cbn [lv_log] in E. discriminate E.
         + destruct (log_trim l0 d k) as [[[rc l'] d'] ms]. apply (f_equal lv_log) in E. cbn [lv_log] in E. discriminate E.
         + rewrite (li_fs _ _ _ _ _ _ Hinv1) in E.
           rewrite open_log_clean in E by (apply (li_clean _ _ _ _ _ _ Hinv1) || apply (li_valid _ _ _ _ _ _ Hinv1)).
